@@ -76,6 +76,11 @@ void enc_dec_segments_init(EncDecSegments *segments_ptr, uint32_t segColCount, u
     segRowCount = (segRowCount < segments_ptr->segment_max_row_count)
         ? segRowCount
         : segments_ptr->segment_max_row_count;
+    // A picture (tile group) that is one SB wide has one SB per band, so the bands of two
+    // consecutive segment rows never overlap: no bottom-neighbor dependency would be created
+    // below and no segment row other than the first would ever be started. Its SBs can only be
+    // processed one after the other anyway (each needs the SB above it): use one segment row.
+    segRowCount = (pic_width_sb == 1) ? 1 : segRowCount;
 
     segments_ptr->sb_row_count       = pic_height_sb;
     segments_ptr->sb_band_count      = BAND_TOTAL_COUNT(pic_height_sb, pic_width_sb);
